@@ -13,7 +13,9 @@
 //! ASSUME: std::alloc::alloc / alloc::alloc::dealloc_nonnull replaced by logging stubs (the
 //!   dealloc stub asserts size and align against the log); CBMC objects are maximally aligned, so
 //!   alignment is checked as requested-align >= needed and (payload offset % align) == 0.
-//! OUTSIDE: dyn handles over payloads aligned above 8 (Kani mis-places a dyn tail there; C11 header); shapes not in the matrix; lengths above 3 end to end (covered by layout-only only).
+//! OUTSIDE: dyn handles over payloads aligned above 8 (Kani mis-places a dyn tail there; C11 header); shapes not in the matrix; lengths above 3 end to end (covered by layout-only only);
+//!   layouts handed to dealloc on UNWINDING paths (Kani does not follow unwind edges, and the MIR interpreter of the
+//!   unwinding engine is generic over H and T, so it has no Layout values; seeded change C05-15, DESIGN 10.15).
 use crate::ghost::*;
 use crate::kinds::*;
 use core::mem::{align_of, forget, size_of, ManuallyDrop, MaybeUninit};
